@@ -47,14 +47,19 @@ func (d *dir) ReadDir(n int) ([]hackpadfs.DirEntry, error) {
 	if err != nil {
 		return nil, err
 	}
-	if n > 0 && d.offset == len(entries) {
-		return nil, io.EOF
+	// d.offset is the number of entries already returned
+	if d.offset > len(entries) {
+		d.offset = len(entries)
 	}
-	if n <= 0 || d.offset+n > len(entries) {
-		d.offset = n
-	} else {
-		entries = entries[d.offset : d.offset+n]
-		d.offset += n
+	entries = entries[d.offset:]
+	if n > 0 {
+		if len(entries) == 0 {
+			return nil, io.EOF
+		}
+		if n < len(entries) {
+			entries = entries[:n]
+		}
 	}
+	d.offset += len(entries)
 	return entries, nil
 }
